@@ -79,14 +79,42 @@ EvOk(r, V, ra, base) ==
 TableOk(r) == /\ Len(r.v) = Len(r.u) /\ Len(r.v) >= 1
               /\ \A p \in DOMAIN r.v : Len(r.v[p]) = Len(r.sched) + 1
               /\ r.fa[1] > 0 /\ r.fa[2] >= r.fa[1]
+\* Exact ties.  The statement compares real numbers; the implementation evaluates the ratio in IEEE arithmetic.  Where
+\* the ratio EQUALS the requested accuracy, the rounded evaluation reproduces the real comparison only for thresholds
+\* for which that is a fact of float arithmetic (1/2, 3/4, 99/100, 1: r.tie_exact, a property of the threshold constant
+\* alone); for other thresholds (9/10) an exact tie may legitimately fall either side.  A pixel may therefore stop at
+\* level k iff k is the last level or agrees (ties counted), and no earlier level agrees beyond doubt.
+AgreeTie(prev, cur, fa, ra, tie) ==
+    /\ prev > 0
+    /\ \/ Smaller(prev, cur) * fa[2] > fa[1] * Larger(prev, cur)
+       \/ tie /\ Smaller(prev, cur) * fa[2] = fa[1] * Larger(prev, cur)
+    /\ (ra # NoTol => Abs(prev - cur) <= ra)
+AllowedStops(r, vp, ra, base) ==
+    LET L == Len(vp) - 1
+        May(k) == (k > 1 \/ base) /\ AgreeTie(vp[k], vp[k+1], r.fa, ra, TRUE)
+        Must(k) == (k > 1 \/ base) /\ AgreeTie(vp[k], vp[k+1], r.fa, ra, r.tie_exact)
+    IN { k \in 1 .. L : (k = L \/ May(k)) /\ \A j \in 1 .. k-1 : ~ Must(j) }
+\* the level at which the recorded call stopped asking about pixel p (0 = never asked at a schedule entry)
+ObsStop(r, p) == LET K == { k \in 1 .. Len(r.sched) : p \in AskedAt(r, r.sched[k]) } IN IF K = {} THEN 0 ELSE Max(K)
+\* each schedule entry is evaluated by at most one call, and a pixel is asked at every level up to its stop level
+EvShape(r, np) ==
+    \A k \in 1 .. Len(r.sched) :
+        /\ Cardinality(CallsAt(r, r.sched[k])) <= 1
+        /\ AskedAt(r, r.sched[k]) = { p \in 1 .. np : ObsStop(r, p) >= k }
+
 ClausesIter(r, V, ra) ==
+    LET np == Len(V) IN
     << Cl("function-asked-on-recognised-sub-grids", r.bad = 0),
        Cl("values-on-lattice", r.off = 0),
        Cl("result-is-value-at-first-agreeing-level-else-last",
-          Len(r.result) = Len(V) /\ \E b \in BOOLEAN : ResOk(r, V, ra, b)),
-       Cl("each-level-evaluates-exactly-the-unresolved-pixels", \E b \in BOOLEAN : EvOk(r, V, ra, b)),
+          Len(r.result) = np /\ \E b \in BOOLEAN :
+              \A p \in 1 .. np : \E k \in AllowedStops(r, V[p], ra, b) : r.result[p] = V[p][k + 1]),
+       Cl("each-level-evaluates-exactly-the-unresolved-pixels",
+          EvShape(r, np) /\ \E b \in BOOLEAN : \A p \in 1 .. np : ObsStop(r, p) \in AllowedStops(r, V[p], ra, b)),
        Cl("result-and-evaluations-under-one-reading",
-          Len(r.result) = Len(V) /\ \E b \in BOOLEAN : ResOk(r, V, ra, b) /\ EvOk(r, V, ra, b)) >>
+          Len(r.result) = np /\ EvShape(r, np) /\ \E b \in BOOLEAN :
+              \A p \in 1 .. np : /\ ObsStop(r, p) \in AllowedStops(r, V[p], ra, b)
+                                 /\ r.result[p] = V[p][ObsStop(r, p) + 1]) >>
 
 \* S->C records carry what the bounded machine (which models the documented reading: the first schedule entry is
 \* compared with the plain evaluation at sub size 1) reached for this table: result and evaluated sets per level.
